@@ -259,7 +259,14 @@ EncAttr(a, opts) ==
   IN <<AttrFlags(a.t) + (IF ext THEN 16 ELSE 0), AttrCode(a.t)>>
      \o (IF ext THEN U16B(Len(v)) ELSE <<Len(v)>>) \o v
 
-EncCap(x)   == <<CapCode(x.c), CapVLen(x)>> \o Rep(CapVLen(x), 3)
+(* FQDN and software version are written with consistent inner lengths (as the harness builds them:
+   host = (n-2) div 2 octets, domain the rest; version = n-1 octets) *)
+EncCapValue(x) ==
+  CASE x.c = "fqdn" /\ x.n >= 2 ->
+         LET h == (x.n - 2) \div 2 IN <<h>> \o Rep(h, 104) \o <<x.n - 2 - h>> \o Rep(x.n - 2 - h, 100)
+    [] x.c = "softver" /\ x.n >= 1 -> <<x.n - 1>> \o Rep(x.n - 1, 118)
+    [] OTHER -> Rep(CapVLen(x), 3)
+EncCap(x)   == <<CapCode(x.c), CapVLen(x)>> \o EncCapValue(x)
 EncParam(p) == LET v == SeqOfSeqs([j \in 1..Len(p) |-> EncCap(p[j])]) IN <<2, Len(v)>> \o v
 
 EncBody(s, opts) ==
